@@ -26,9 +26,17 @@ c.ensure('result_is_not_taken', lambda x: z3.Not(x.a.existing_names.dom[x.result
 c.ensure('candidate_kept_when_free', lambda x: z3.Implies(
     z3.Not(x.a.existing_names.dom[x.a.candidate_name.e]),
     x.result.e == x.a.candidate_name.e))
+_a, _b = z3.Const('a!cat', sym.Str), z3.Const('b!cat', sym.Str)
+c.assume_entry('a_concatenation_is_empty_only_if_both_parts_are', lambda x: sym.forall(
+    [_a, _b], z3.Implies(world.str_cat([_a, _b]) == sym.str_lit(''), _a == sym.str_lit('')),
+    patterns=[world._cat2(_a, _b)]), 'string fact')
+c.ensure('not_empty_unless_the_candidate_is', lambda x: z3.Implies(
+    x.a.candidate_name.e != sym.str_lit(''), x.result.e != sym.str_lit('')))
 c.raises_only_listed = True
 c.loop(('unique_name in existing_names', None), [Clause(
     'candidate_until_found_taken', lambda x, k: z3.And(
+        z3.Implies(x.a.candidate_name.e != sym.str_lit(''),
+                   x.env.unique_name.e != sym.str_lit('')),
         x.env.i.e >= 2,
         z3.Implies(x.env.i.e == 2, x.env.unique_name.e == x.a.candidate_name.e),
         z3.Implies(x.env.i.e > 2, x.a.existing_names.dom[x.a.candidate_name.e])))])
